@@ -138,6 +138,14 @@ function genSem(rng, params) {
       const keys = (pick.length ? pick : [ks[0]]).map((k) => lit("s", k));
       const k = keys.length === 1 ? keys[0] : [A("union"), ...keys];
       expr = [A("idx"), a, k]; text = `(${tsOf(a)})[${tsOf(k)}]`; types = [a, ...o[1].map((m) => m[2])];
+    } else if (rng.chance(1, 4)) {
+      // strings among the operands: a string indexed by a number is a string, next to what the lists contribute
+      const strs = rng.pick([[lit("s", "ab")], [lit("s", "a"), lit("s", "b")], [A("string")]]);
+      const lists = rng.pick([[[A("tuple"), [A("boolean")], A("none")]], [[A("array"), A("number")]], [[A("tuple"), [A("number"), A("boolean")], A("none")], [A("array"), A("null")]], []]);
+      const ms = [...strs, ...lists];
+      const a = ms.length === 1 ? ms[0] : [A("union"), ...ms];
+      const k = rng.chance(1, 2) ? A("number") : lit("n", "0");
+      expr = [A("idx"), a, k]; text = `(${tsOf(a)})[${tsOf(k)}]`; types = [A("string"), A("boolean"), A("number"), A("null")];
     } else {
       const a = rng.chance(1, 2) ? [A("array"), rng.chance(1, 8) ? A("unknown") : genSubTy(rng, 1, sc)] : [A("tuple"), Array.from({ length: 1 + rng.below(3) }, () => genSubTy(rng, 1, sc)), rng.chance(1, 3) ? (rng.chance(1, 3) ? A(rng.pick(["unknown", "any"])) : genLeaf(rng)) : A("none")];
       const k = rng.chance(1, 2) ? A("number") : lit("n", String(rng.below(3)));
@@ -148,9 +156,34 @@ function genSem(rng, params) {
   const src = decls.map(tsOfDecl).join("\n") + `\nparse.buildParsers<{ R: ${text} }>();\n`;
   return [A("sem"), A(String(counter++)), [A("prog"), decls, [["R", expr]]], [["entry.ts", src]], vals.map(encVal)];
 }
+// `Exclude<A | B | C, X>` over object types, some of them open through `[k: string]: unknown` next to declared properties,
+// with values that carry keys only the index signature admits (strict mode: C11 on materialised types)
+function genSemStrict(rng, params) {
+  const tag = (v) => lit("s", v);
+  const key = rng.pick(["type", "kind"]);
+  const open = () => [A("string"), rng.pick([A("unknown"), A("unknown"), A("string"), [A("union"), A("string"), A("number")]])];
+  const mk = (v) => { const ms = [[key, A("false"), tag(v)], ...(rng.chance(2, 3) ? [["id", A("false"), A("string")]] : []), ...(rng.chance(1, 3) ? [["n", A("true"), A("string")]] : [])]; return [A("obj"), ms, rng.chance(1, 2) ? open() : A("none")]; };
+  const tags = ["a", "b", "c"].slice(0, 2 + rng.below(2));
+  const ms = tags.map(mk);
+  const a = [A("union"), ...ms];
+  const b = rng.pick([[A("obj"), [[key, A("false"), tag(tags[tags.length - 1])]], A("none")], ms[ms.length - 1], [A("obj"), [[key, A("false"), tag("zz")]], A("none")]]);
+  const expr = [A("exclude"), a, b];
+  const vals = [];
+  for (let i = 0; i < Number(params[0] || 10); i++) {
+    const m = rng.pick(ms); const o = {};
+    const put = (k, x) => Object.defineProperty(o, k, { value: x, enumerable: true, configurable: true, writable: true });
+    for (const [k, , t] of m[1]) { if (k === "n" && rng.chance(1, 2)) continue; put(k, k === key ? t[1][1] : "s" + i); }
+    if (rng.chance(2, 3)) put(rng.pick(["color", "extra", "zz"]), rng.pick(["red", 7, "x"]));
+    if (rng.chance(1, 6)) put("id", 5);
+    vals.push(o);
+  }
+  const src = `parse.buildParsers<{ R: Exclude<${tsOf(a)}, ${tsOf(b)}> }>();\n`;
+  return [A("semstrict"), A(String(counter++)), [A("prog"), [], [["R", expr]]], [["entry.ts", src]], vals.map(encVal)];
+}
 let counter = 0;
 export function gen(rng, params, mode) {
   if (mode === "sub-sem") return genSem(rng, params);
+  if (mode === "sub-sem-strict") return genSemStrict(rng, params);
   const { decls, names } = genDecls(rng);
   const sc = { names };
   if (rng.chance(1, 8)) {
@@ -180,6 +213,20 @@ export function gen(rng, params, mode) {
     if (rng.chance(1, 5)) [x, y] = [y, x];
     const src = decls.map(tsOfDecl).join("\n") + `\nparse.buildParsers<{ R: (${tsOf(x)}) extends (${tsOf(y)}) ? "yes" : "no" }>();\n`;
     return [A("sub"), A(String(counter++)), decls, x, y, src];
+  }
+  if (rng.chance(1, 10)) {
+    // named unions of literals that overlap each other or a literal written next to them: the union of the operands then
+    // meets the same literal on both sides (`type A = 1 | 2; 2 extends A | 2 | 3`)
+    const pool = rng.chance(1, 2) ? [lit("n", "1"), lit("n", "2"), lit("n", "3")] : [lit("s", "a"), lit("s", "b"), lit("s", "c")];
+    const sub = () => { const k = pool.filter(() => rng.chance(2, 3)); return k.length ? k : [pool[0]]; };
+    const d1 = sub(), d2 = sub();
+    const ds = [...decls, [A("alias"), "La", [], d1.length === 1 ? d1[0] : [A("union"), ...d1]], [A("alias"), "Lb", [], d2.length === 1 ? d2[0] : [A("union"), ...d2]]];
+    const la = [A("ref"), "La"], lb = [A("ref"), "Lb"];
+    const wrap = rng.pick([(t) => t, (t) => [A("obj"), [["k", A("false"), t]], A("none")], (t) => [A("array"), t]]);
+    const x = wrap(rng.pick([rng.pick(pool), la, [A("union"), rng.pick(pool), rng.pick(pool)]]));
+    const y = wrap(rng.pick([[A("union"), la, rng.pick(pool)], [A("union"), la, lb], [A("union"), la, rng.pick(pool), rng.pick(pool)], [A("union"), lb, la, rng.pick(pool)]]));
+    const src = ds.map(tsOfDecl).join("\n") + `\nparse.buildParsers<{ R: (${tsOf(x)}) extends (${tsOf(y)}) ? "yes" : "no" }>();\n`;
+    return [A("sub"), A(String(counter++)), ds, x, y, src];
   }
   if (names.length >= 2 && rng.chance(1, 8)) {
     // the right operand is a union of named types that are registered BEFORE the root of the left operand (the left one
